@@ -19,6 +19,7 @@ AXIOMS = [
     "x!=0 => fmul(x,finv(x))=1",
     "fmul(p-1,y) = -y",
     "cancellation: fmul(x,y)=x => x=0 or y=1",
+    "associativity/commutativity of fmul on pure monomials (products of atoms are kept in a sorted normal form)",
     "ground distributivity of fmul over the linear forms of its arguments (<= 16 cross terms)",
     "|x|,|y| < 2^32 (symmetric representatives) => fmul(x,y) = sign * M with M = |x||y| an integer <= (2^32-1)^2 < p, M <= (2^32-1)|x|, M <= (2^32-1)|y|, |y|>=1 => M >= |x|, |x|>=1 => M >= |y| [u32 queries only]",
 ]
@@ -97,6 +98,8 @@ class FieldCtx:
         self.u32_axiom = u32_axiom
         self.axioms_used = set()
         self.expand_limit = 16
+        self.mono = {}  # monomial atom name -> {base atom: exponent}
+        self.mono_names = {}  # canonical monomial key -> atom name
         self.red_defs = []  # (v, q, Lin): v = lin mod p, q = (lin - v) / p  (functional definitions)
         self.defs = {}  # atom name -> ('mul', Lin, Lin) | ('inv', Lin)  (for concrete re-evaluation)
 
@@ -181,15 +184,40 @@ class FieldCtx:
             return b.scale(a.const)
         if b.is_const():
             return a.scale(b.const)
+        # pure monomials (single atom, no constant part): associative-commutative normal form, so
+        # that (x*x)*(x*x), x*(x*(x*x)) ... are the same atom
+        ma, mb = self._as_mono(a), self._as_mono(b)
+        if ma is not None and mb is not None:
+            (ca, na), (cb, nb) = ma, mb
+            merged = dict(self.mono.get(na, {na: 1}))
+            for k, e in self.mono.get(nb, {nb: 1}).items():
+                merged[k] = merged.get(k, 0) + e
+            key = tuple(sorted(merged.items()))
+            name = self.mono_names.get(key)
+            res_atom = self._mul_atoms(Lin({na: 1}), Lin({nb: 1}), forced_name=name, mono=(key, merged))
+            return res_atom.scale(ca * cb)
+        return self._mul_atoms(a, b)
+
+    def _as_mono(self, l):
+        if l.const == 0 and len(l.terms) == 1:
+            (k, c), = l.terms.items()
+            return c, k
+        return None
+
+    def _mul_atoms(self, a, b, forced_name=None, mono=None):
         ka, kb = a.key(), b.key()
         if (kb, ka) in self.mul_inst:
             return Lin({self.mul_inst[(kb, ka)]: 1})
         if (ka, kb) in self.mul_inst:
             return Lin({self.mul_inst[(ka, kb)]: 1})
         va, vb = self.value(a), self.value(b)
-        name = self.fresh("m")
-        r = z3.Int(name)
+        new_atom = forced_name is None
+        name = forced_name or self.fresh("m")
+        r = self.atoms[name] if not new_atom else z3.Int(name)
         self.atoms[name] = r
+        if mono is not None and new_atom:
+            self.mono_names[mono[0]] = name
+            self.mono[name] = mono[1]
         ub = P - 1
         if self.u32_axiom:
             # integer product of two u32 values: bounded by (2^32-1)^2 (< p, so no wrap-around)
@@ -218,7 +246,8 @@ class FieldCtx:
             self.side.append(z3.And(va * vb == r + qn * P, qn >= 0, qn < P))
         self.bounds[name] = ub
         self.mul_inst[(ka, kb)] = name
-        self.defs[name] = ("mul", a, b)
+        if new_atom:
+            self.defs[name] = ("mul", a, b)
         f = self.fmul
         self.side += [
             r == f(va, vb),
